@@ -312,4 +312,124 @@ Proof.
   - apply split_loop_sealed; [exact Hx|exact Hne|exact Hall|lia].
 Qed.
 End Level.
+
+(* ---- the escaped form of a data value is sealed against every delimiter ---------------------------- *)
+Lemma E_cons b d : E (b :: d) = (if is_head H b then esc ++ [b] else [b]) ++ E d.
+Proof. reflexivity. Qed.
+
+Lemma E_nil_inv d : E d = [] -> d = [].
+Proof.
+  destruct d as [|b d]; [reflexivity|]. rewrite E_cons. destruct (is_head H b).
+  - rewrite <- app_assoc. intro Hn. apply app_eq_nil in Hn as [_ Hn]. discriminate.
+  - discriminate.
+Qed.
+
+Lemma not_head b : ~ In b H -> is_head H b = false.
+Proof. intro Hn. destruct (is_head H b) eqn:Eh; [apply is_head_In in Eh; contradiction|reflexivity]. Qed.
+
+(* unescaped bytes in front of the escaped form are data bytes *)
+Lemma plain_prefix : esc <> [] -> forall xt, (forall b, In b xt -> ~ In b H) ->
+  forall d v, E d = xt ++ v -> exists d2, d = xt ++ d2 /\ v = E d2.
+Proof.
+  intros He. destruct (head_in esc (esc_sp He)) as (e0 & er & Ee & He0).
+  induction xt as [|x1 xt IH]; intros Hxt d v Heq.
+  - exists d. auto.
+  - destruct d as [|b d]; [discriminate|]. rewrite E_cons in Heq.
+    destruct (is_head H b) eqn:Eb.
+    + exfalso. rewrite Ee in Heq. simpl in Heq. inversion Heq; subst.
+      apply (Hxt x1); [left; reflexivity|exact He0].
+    + simpl in Heq. inversion Heq; subst.
+      destruct (IH (fun b' Hb' => Hxt b' (or_intror Hb')) d v) as (d2 & -> & ->); [assumption|].
+      exists d2. auto.
+Qed.
+
+(* every occurrence of a delimiter or of the release character in the escaped form of d is either
+   an occurrence in d with a release character put before it, or an inserted release character *)
+Lemma occ_in_E : esc <> [] -> forall d u x v, In x SP -> E d = u ++ x ++ v ->
+  (exists d1 d2, d = d1 ++ x ++ d2 /\ u = E d1 ++ esc /\ v = E d2) \/
+  (x = esc /\ exists d1 b d2, d = d1 ++ b :: d2 /\ In b H /\ u = E d1 /\ v = b :: E d2).
+Proof.
+  intros He. pose proof (esc_sp He) as Hes.
+  induction d as [|b d IH]; intros u x v Hx Heq.
+  - exfalso. destruct (head_in x Hx) as (x0 & xt & -> & _). destruct u; discriminate.
+  - destruct (head_in x Hx) as (x0 & xt & Ex & Hx0).
+    rewrite E_cons in Heq. destruct (is_head H b) eqn:Eb.
+    + rewrite <- app_assoc in Heq. change ([b] ++ E d) with (b :: E d) in Heq.
+      destruct (Nat.lt_ge_cases (length u) (length esc)) as [Hlt|Hge].
+      * (* inside the inserted release character: it is that release character *)
+        destruct (no_overlap (esc ++ b :: E d) esc x [] (b :: E d) u v Hes Hx) as [Hu Hxe];
+          [reflexivity|exact Heq|simpl; lia|].
+        right. subst u. split; [auto|]. exists [], b, d. split; [reflexivity|].
+        split; [apply is_head_In; exact Eb|]. split; [reflexivity|].
+        rewrite <- Hxe in Heq. simpl in Heq. apply app_inv_head in Heq. auto.
+      * destruct (Nat.eq_dec (length u) (length esc)) as [Heql|Hneq].
+        -- (* right after it: the occurrence is in the data *)
+           assert (esc = u /\ b :: E d = x ++ v) as [<- Hrest] by (apply app_eq_length_l; [lia|exact Heq]).
+           rewrite Ex in Hrest. simpl in Hrest. inversion Hrest as [[Hb Hd]]. subst x0.
+           destruct (plain_prefix He xt) with (d := d) (v := v) as (d2 & -> & ->).
+           { intros b' Hb'. apply (tail_not_head x b' Hx). rewrite Ex. exact Hb'. }
+           { exact Hd. }
+           left. exists [], d2. rewrite Ex. simpl. auto.
+        -- (* further right: induction *)
+           replace (esc ++ b :: E d) with ((esc ++ [b]) ++ E d) in Heq by (rewrite <- app_assoc; reflexivity).
+           apply app_split_ge in Heq; [|rewrite app_length; simpl; lia].
+           destruct Heq as (m & -> & Hd).
+           destruct (IH m x v Hx Hd) as [(d1 & d2 & -> & -> & ->)|(Hxe & d1 & b' & d2 & -> & Hb' & -> & ->)].
+           ++ left. exists (b :: d1), d2. rewrite E_cons, Eb, <- !app_assoc. auto.
+           ++ right. split; [exact Hxe|]. exists (b :: d1), b', d2. rewrite E_cons, Eb. auto.
+    + simpl in Heq. destruct u as [|u0 u].
+      * exfalso. rewrite Ex in Heq. simpl in Heq. inversion Heq; subst.
+        apply is_head_In in Hx0. congruence.
+      * simpl in Heq. inversion Heq as [[Hu0 Hd]]. subst u0.
+        destruct (IH u x v Hx Hd) as [(d1 & d2 & -> & -> & ->)|(Hxe & d1 & b' & d2 & -> & Hb' & -> & ->)].
+        -- left. exists (b :: d1), d2. rewrite E_cons, Eb. auto.
+        -- right. split; [exact Hxe|]. exists (b :: d1), b', d2. rewrite E_cons, Eb. auto.
+Qed.
+
+Lemma E_even : esc <> [] -> forall n d, length d <= n -> Nat.odd (trailing esc (E d)) = false.
+Proof.
+  intros He. induction n as [|n IH]; intros d Hn.
+  - destruct d; [|simpl in Hn; lia]. reflexivity.
+  - destruct (strip_suffix esc (E d)) as [u|] eqn:Es.
+    + apply strip_suffix_some in Es.
+      destruct (occ_in_E He d u esc [] (esc_sp He)) as [(d1 & d2 & Hd & Hu & Hv)|(_ & d1 & b & d2 & _ & _ & _ & Hv)];
+        [rewrite app_nil_r; exact Es| |discriminate].
+      symmetry in Hv. apply E_nil_inv in Hv. subst d2.
+      rewrite Es, Hu, !trailing_app by exact He.
+      change (Nat.odd (S (S (trailing esc (E d1))))) with (Nat.odd (trailing esc (E d1))).
+      apply IH. subst d. rewrite !app_length in Hn.
+      assert (0 < length esc) by (destruct esc; [congruence|simpl; lia]). lia.
+    + rewrite trailing_none by (apply strip_suffix_none; exact Es). reflexivity.
+Qed.
+
+(* what a data value must satisfy: nothing when there is a release character; otherwise it must
+   not contain the first byte of any delimiter *)
+Definition data_ok (d : bytes) : Prop := esc <> [] \/ forall b, In b d -> ~ In b H.
+
+Lemma E_no_esc d : esc = [] -> E d = d.
+Proof.
+  intro He. induction d as [|b d IH]; [reflexivity|]. rewrite E_cons, IH, He.
+  destruct (is_head H b); reflexivity.
+Qed.
+
+Lemma sealed_E d : data_ok d -> sealed (fun x => In x (delims c)) (E d).
+Proof.
+  intros [He|Hd].
+  - split; [|intros _; apply (E_even He (length d)); lia].
+    intros x u v Hx Heq. split; [exact He|].
+    destruct (occ_in_E He d u x v (delim_sp x Hx) Heq) as [(d1 & d2 & _ & -> & _)|(Hxe & _)].
+    + rewrite trailing_app by exact He. rewrite Nat.odd_succ, <- Nat.negb_odd.
+      rewrite (E_even He (length d1)) by lia. reflexivity.
+    + exfalso. apply (esc_not_delim He). rewrite <- Hxe. exact Hx.
+  - destruct (list_eq_dec Byte.byte_eq_dec esc []) as [He|He].
+    + split; [|congruence]. intros x u v Hx Heq. exfalso. rewrite (E_no_esc d He) in Heq.
+      destruct (head_in x (delim_sp x Hx)) as (x0 & xt & -> & Hx0).
+      apply (Hd x0); [|exact Hx0]. rewrite Heq. apply in_or_app. right. left. reflexivity.
+    + split; [|intros _; apply (E_even He (length d)); lia].
+      intros x u v Hx Heq. split; [exact He|].
+      destruct (occ_in_E He d u x v (delim_sp x Hx) Heq) as [(d1 & d2 & _ & -> & _)|(Hxe & _)].
+      * rewrite trailing_app by exact He. rewrite Nat.odd_succ, <- Nat.negb_odd.
+        rewrite (E_even He (length d1)) by lia. reflexivity.
+      * exfalso. apply (esc_not_delim He). rewrite <- Hxe. exact Hx.
+Qed.
 End RT.
